@@ -227,6 +227,11 @@ impl Hook for Sched {
                     st.trace.push((t, Ev::Note(n)));
                     fatal(&st, "NodeData block accessed after it was freed");
                 }
+                // recorded once per run of accesses of a thread
+                let dup = matches!(st.trace.last(), Some((u, Ev::Note(Note::Access { .. }))) if *u == t);
+                if !dup {
+                    st.trace.push((t, Ev::Note(n)));
+                }
                 return;
             }
             _ => {}
